@@ -340,7 +340,8 @@ class FileStorage(
             if create and os.path.exists(self.blob_dir):
                 remove_committed_dir(self.blob_dir)
 
-            self._blob_init(blob_dir)
+            # (a read-only storage creates nothing, not even directories)
+            self._blob_init(blob_dir, create=not read_only)
             alsoProvides(self, IBlobStorageRestoreable)
         else:
             self.blob_dir = None
